@@ -1,1 +1,5 @@
 # chk(pid, technique, text, note)
+chk("C12",
+    "exhaustive enumeration of the per-byte update space + stateright BFS to closure over write histories on the real list/credential",
+    "Bounded exhaustive model checking of the real StatusList2021 / StatusList2021Credential code: the complete (byte, neighbour, position, offset, value) space of the bit update (36 864 cases), all sizes around the minimum, all out-of-range classes, and explicit-state BFS to closure (fingerprint = the real list's bytes / the real credential's JSON) over write histories from three initial patterns and over credential-level set/clear operations for both purposes, with a Vec<bool>/BTreeSet reference model compared after every transition and status evaluation checked at every reached state.",
+    "Trusted: flate2/multibase as lossless codecs, serde_json; histories use 5 indices (0,1,7,8,len-1) and 4 credential indices; list sizes MIN, MIN+8, 2^20.")
